@@ -385,7 +385,8 @@ def crash_scen(tier, seed):
 # delivery must not depend on which receive call is used: single-threaded scripts with recv / try_recv / try_recv_timeout (timed) and
 # handle-carrying programs (world) are part of C02 as well
 PROPS['C02']['scenarios'] = (lambda *fs: (lambda tier, seed: [x for f in fs for x in f(tier, seed)]))(sched_scen(480, 12000), timed_scen_late(['default'], 120, 3000), world_scen_late(['default'], 100, 2000),
-                             lambda tier, seed: [{'args': ['set', '--seed', str(seed + 7), '--n', str(600 if tier == 'thorough' else 40), '--tier', tier]}])
+                             lambda tier, seed: [{'args': ['set', '--seed', str(seed + 7), '--n', str(600 if tier == 'thorough' else 40), '--tier', tier]}],
+                             lambda tier, seed: [{'args': ['eofrace', '--tier', tier]}])
 PROPS['C02']['rule'] += ('; plus timed scripts (every queued message must be returned, in order, by whichever of recv / try_recv / try_recv_timeout is issued, also after the last '
                          'sender is gone), world programs compared with the specification, and receiver-set scripts (delivery through select: per-member order and exactly-once, incl. '
                          'many members ready at once and one batch of several MiB, then silence)')
@@ -418,6 +419,7 @@ PROPS['C06'] = {
                  'C06.C06_inv2_step', 'C06.C06_cap_pos', 'RSetP.inv_step', 'RSetP.acct_step', 'RSetP.acct_run', 'C06.C06_shape'],
     'scenarios': (lambda a: (lambda tier, seed: a(tier, seed) + [{'args': ['crash', '--shape', str(i), '--tier', tier, '--observer', 'select']}
                                                        for i in ((1, 2, 4, 5) if tier == 'thorough' else (1, 2))]
+                                                      + [{'args': ['eofrace', '--tier', tier]}]
                                                       + [{'build': 'force-inprocess', 'args': ['set', '--seed', str(seed + 40), '--n', str(2000 if tier == 'thorough' else 150), '--tier', tier]}]))(set_scen(800, 12000)),
     'builds': ['default', 'force-inprocess'],
     'search': search_set,
@@ -506,14 +508,16 @@ PROPS['C11'] = {
 }
 PROPS['C03'] = {
     'modules': ['IpcModel.Props.C03'],
-    'theorems': ['C03.C03_roots', 'C03.C03_iff', 'C03.C03_held_sender_connected', 'Ledger.inv_run', 'C03.C03_refine', 'C03.C03_unix_iff', 'Refine.sim_step',
+    'theorems': ['C03.C03_roots', 'C03.C03_iff', 'C03.C03_held_sender_connected', 'Ledger.inv_run', 'C03.C03_refine', 'C03.C03_unix_iff', 'C03.C03_eof_confirmed', 'Refine.sim_step',
                  'Reach.reachG_iff'],
     'builds': ['default', 'force-inprocess'],
     'scenarios': plus(world_scen(['default', 'force-inprocess'], 400, 8000),
                       lambda tier, seed: [{'args': ['crash', '--shape', str(i), '--tier', tier, '--only-stale', '1']} for i in ((1, 2, 4, 5) if tier == 'thorough' else (1, 2))],
-                      lambda tier, seed: [{'build': b, 'args': ['timed', '--seed', str(seed + 2), '--n', str(1500 if tier == 'thorough' else 60), '--tier', tier]} for b in ('default', 'force-inprocess')]),
+                      lambda tier, seed: [{'build': b, 'args': ['timed', '--seed', str(seed + 2), '--n', str(1500 if tier == 'thorough' else 60), '--tier', tier]} for b in ('default', 'force-inprocess')],
+                      lambda tier, seed: [{'args': ['eofrace', '--tier', tier]}]),
     'search': search_world,
-    'rule': ('timed scripts on the OS and in-process transports (the last sender dropped by a second thread while recv / try_recv_timeout is blocked: it must wake up with disconnected); '
+    'rule': ('eofrace: ~200 000 channels whose sender queues one message and drops its handle at once while the receiver spins on try_recv / select — the message must be delivered '
+             'before disconnection is reported (the kernel\'s end-of-file answer can overtake it; D16); timed scripts on the OS and in-process transports (the last sender dropped by a second thread while recv / try_recv_timeout is blocked: it must wake up with disconnected); '
              'crash --only-stale: a channel whose last sender handle travelled inside a multi-packet message whose sending process was killed before call k (every k) must report '
              'disconnection to a blocking recv() within 4 s once the truncated message is discarded, while the owner of the carrying channel is blocked in recv(); '
              'seeded histories of clone / embed-in-message / extract / drop-handle / drop-carrying-receiver over an acyclic family of up to 6 channels (handles are embedded only '
@@ -609,7 +613,7 @@ def search_timed(run):
 PROPS['C10'] = {
     'modules': ['IpcModel.Props.C10'],
     'theorems': ['C10.C10_flag', 'C10.C10_try', 'C10.C10_timeout', 'C10.C10_no_poison', 'C10.C10_no_miss', 'C10.C10_wait', 'C10.C10_shape',
-                 'Timed.trace_shape'],
+                 'Timed.trace_shape', 'C10.C10_no_early_eof', 'C10.C10_trace_shape'],
     'builds': ['default', 'force-inprocess'],
     'scenarios': (lambda a: (lambda tier, seed: a(tier, seed) + [{'args': ['crash', '--shape', str(i), '--tier', tier, '--observer', 'timed']}
                                                        for i in ((1, 2, 4) if tier == 'thorough' else (1,))]))(timed_scen(['default', 'force-inprocess'], 120, 4000)),
